@@ -18,6 +18,10 @@ MULTI_ID = {('element_source', 'storyID'), ('element_source', 'itemID'), ('roSto
 WARN_KIND = {'StoryNotFoundWarning': 'story', 'ItemNotFoundWarning': 'item', 'DuplicateStoryWarning': 'dup'}
 
 
+COLLECT_APPLY_RULES = {'IDX', 'IDX-DOMAIN', 'IDX-FRESH', 'IDX-ADVANCE', 'LOOP-INVARIANT-IDX', 'CONSERVE', 'PAYLOAD-ALL', 'SILENT-SUCCESS', 'MISS-REPORTED',
+                       'WARN-CATEGORY', 'NO-EARLY-EXIT', 'VALIDATE-BEFORE-MUTATE', 'NO-BUILTIN-ESCAPE', 'FRAME', 'SWAP-EXCHANGE', 'DELETE-REMOVES', 'MOVE-ACTS'}
+
+
 class MergeFlow(Engine):
     """Interprets RunningOrder.__add__(ro, msg) for one message class and evaluates the rules online."""
 
@@ -613,7 +617,7 @@ class MergeFlow(Engine):
 
     def _deferred_positions(self, st, value):
         if any(f.func is not None and f.func.name == 'merge' for f in st.frames) and self._holds_position(value, st):
-            raise AnalysisError('collect-then-apply: positions in the running order are stored in a list for a later loop to use - outside the index abstraction')
+            self.collect_apply = True
 
     def on_list_append(self, st, node, list=None, value=None):
         if st.mon.get('itlog'):
@@ -750,6 +754,16 @@ class MergeFlow(Engine):
             self.ro_root = st.get(ro.sym).get('_xml')
             for v, s in self.call_function(add, [msg], {}, st, None, self_val=ro):
                 self.judge_outcome(v, s, ro)
+        if getattr(self, 'collect_apply', False):
+            # positions were put aside in a container for a later loop: findings of the rules that relate a lookup, its report
+            # and its edit within one loop iteration are not trustworthy here - they are withheld and the class gets no verdict
+            held = [k for k, f in self.findings.items() if f.rule in COLLECT_APPLY_RULES]
+            if held:
+                rules = sorted({self.findings[k].rule for k in held})
+                for k in held:
+                    del self.findings[k]
+                raise AnalysisError(f'collect-then-apply: positions in the running order are stored in a container for a later loop to use; {len(held)} finding(s) of '
+                                    f'{rules} withheld - outside the index abstraction')
         return self
 
     def run_refusal(self, marker: str):
